@@ -204,6 +204,13 @@ def verdict(prop, wl, tier, seed, results, t0, total, nshards):
     hard_missing = [a for a in missing if not _is_private_anchor(a) and a not in soft]
     if hard_missing and not errors:
         reasons.append("anchored public functions never entered: " + ", ".join(hard_missing))
+    # a converter that claims a string twice is outside every reference-model monitor's domain; no workload builds one
+    # on purpose (unless it says so), so meeting one means the library let a clash through somewhere: the monitors
+    # that were silent about that converter were not looking
+    if not getattr(wl, "ALLOWS_NON_STRICT", False):
+        ns = sum(n for k, n in counters.items() if k.startswith("ood:") and k.endswith(":not-strict"))
+        if ns:
+            reasons.append(f"{ns} monitored calls on converters whose records claim a string twice (outside the monitors' domain)")
     if len(keys) < 2 and not unknown:
         reasons.append(f"only {len(keys)} distinct non-trivial cases")
     wall = round(time.time() - t0, 2)
